@@ -104,6 +104,13 @@ def proof_step(prop, log):
         rc, txt = sh(["lake", "env", "lean", audit], cwd=LEAN)
         if rc != 0:
             raise Infra("audit failed:\n" + txt[-2000:])
+    if os.environ.get("VERIF_TIER_EFFECTIVE") == "thorough":
+        # independent re-check of the compiled theorem module by the toolchain's own re-checker
+        with BuildLock():
+            rc2, txt2 = sh(["lake", "env", "leanchecker", mod], cwd=LEAN, timeout=3000)
+        out["leanchecker"] = {"exit": rc2, "tail": txt2[-300:]}
+        if rc2 != 0:
+            out["broken"].append({"module": mod, "errors": ["leanchecker rejected the module: " + txt2[-300:]]})
     for line in txt.splitlines():
         i = line.find("AUDIT {")
         if i < 0:
@@ -151,6 +158,7 @@ def main():
         import campaigns
         return campaigns.replay(sys.argv[2])
     tier = os.environ.get("VERIF_TIER") or (sys.argv[2] if len(sys.argv) > 2 else "quick")
+    os.environ["VERIF_TIER_EFFECTIVE"] = tier
     seed = int(os.environ.get("VERIF_SEED", "0"))
     t0 = time.time()
     log = []
@@ -209,6 +217,7 @@ def main():
                 "theorems": proof["theorems"],
                 "model_definitions_used": sorted(proof["uses"])[:400],
                 "broken": proof["broken"],
+                "leanchecker": proof.get("leanchecker"),
                 "evaluations": res.evaluations,
                 "distinct_nontrivial": res.distinct_nontrivial,
                 "traces_validated_against_impl": res.compared,
